@@ -32,7 +32,7 @@ type c09Case struct {
 	Target string `json:"target"`
 }
 
-var c09SegsQuick = []string{"..", ".", "", "a", "sub", "%2e%2e", "%252e%252e", "..%2f", "\\", "%5c", "c", "OUTSIDE-canary.txt", "x"}
+var c09SegsQuick = []string{"..", ".", "", "a", "sub", "%2e%2e", "%252e%252e", "..%2f", "\\", "%5c", "c", "OUTSIDE-canary.txt", "x", "index.html"}
 var c09SegsMore = []string{"%2E%2E", "%2f", "..\\", "%00", "i", "o", "io", "OUTSIDE-sibling", strings.Repeat("L", 4096)}
 
 // c09Targets enumerates the raw request targets.
@@ -61,6 +61,12 @@ func c09Targets(segs []string, maxSeg int) []string {
 	}
 	/* The canonical spellings of the shell endpoints and the root. */
 	out = append(out, "/", "/c", "/c?c2=h.example", "/i/x", "/o/x", "/io", "/io/", "/i/", "/o/", "/i", "/o", "/c/", "*")
+	/* The shell endpoints with other methods (a target written "METHOD /path"). */
+	for _, m := range []string{"POST", "PUT", "DELETE", "OPTIONS"} {
+		for _, t := range []string{"/c", "/i/x", "/o/x", "/io"} {
+			out = append(out, m+" "+t)
+		}
+	}
 	return out
 }
 
@@ -149,6 +155,10 @@ func c09Judge(r *ev.Result, c c09Case, res *hworld.Response, notices []opshell.C
 		if 200 == res.Status && !shell && "IN:flat:a\n" != string(body) {
 			v("single-file-other-body", "a non-shell 200 response is not the configured file")
 		}
+		/* Whatever reached the file handler must have got the file. */
+		if 0 != nFile && (200 != res.Status || "IN:flat:a\n" != string(body)) {
+			v("single-file-not-returned", "the file handler ran but the answer is not the configured file")
+		}
 	default:
 		if 200 == res.Status && !shell {
 			if 1 != nFile {
@@ -163,13 +173,17 @@ func c09Judge(r *ev.Result, c c09Case, res *hworld.Response, notices []opshell.C
 			}
 		}
 	}
-	/* The canonical shell targets keep their meaning. */
-	switch c.Target {
+	/* The canonical shell targets keep their meaning, whatever the method. */
+	ct := c.Target
+	if _, rest, ok := strings.Cut(ct, " "); ok && !strings.HasPrefix(ct, "/") {
+		ct = rest
+	}
+	switch ct {
 	case "/c", "/c?c2=h.example", "/i/x", "/o/x", "/io", "/io/":
 		if !shell {
 			v("shell-endpoint-lost", "a shell endpoint did not act as one")
 		}
-		if strings.HasPrefix(c.Target, "/c") && !bytes.HasPrefix(body, []byte("#!/bin/sh")) {
+		if strings.HasPrefix(ct, "/c") && !bytes.HasPrefix(body, []byte("#!/bin/sh")) {
 			v("shell-endpoint-lost", "/c did not return a script")
 		}
 	}
@@ -233,7 +247,11 @@ func c09(r *ev.Result, tier string) {
 		var conn *hworld.Conn
 		local := map[string]int{}
 		for _, t := range targets[j.lo:j.hi] {
-			raw := "GET " + t + " HTTP/1.1\r\nHost: " + w.Addr + "\r\n\r\n"
+			method := "GET"
+			if m, rest, ok := strings.Cut(t, " "); ok && !strings.HasPrefix(t, "/") {
+				method, t = m, rest
+			}
+			raw := method + " " + t + " HTTP/1.1\r\nHost: " + w.Addr + "\r\nContent-Length: 0\r\n\r\n"
 			var res *hworld.Response
 			for try := 0; try < 2; try++ {
 				if nil == conn {
@@ -307,7 +325,11 @@ func c09Replay(kind string, raw json.RawMessage) int {
 	}
 	defer w.Stop()
 	conn, _ := w.Dial("")
-	res, err := conn.Do("GET " + c.Target + " HTTP/1.1\r\nHost: " + w.Addr + "\r\n\r\n")
+	method, target := "GET", c.Target
+	if m, rest, ok := strings.Cut(target, " "); ok && !strings.HasPrefix(target, "/") {
+		method, target = m, rest
+	}
+	res, err := conn.Do(method + " " + target + " HTTP/1.1\r\nHost: " + w.Addr + "\r\nContent-Length: 0\r\n\r\n")
 	if nil != err {
 		fmt.Println("request error:", err)
 		return 2
